@@ -15,7 +15,8 @@ Model/WOps.lean = the meaning of the Wuffs operators):
 * `as_correct`, `as_redundant_mask_correct` (the dropped `& 0xFF`);
 * `compound_assign_correct_*`: op-assign on every type incl. u8/u16
   (promotion + truncation back to the type of the left-hand side);
-* `assoc_mul_small_correct` / `assoc_mul_unrepaired_undefined`;
+* `assoc_mul_small_correct` / `assoc_mul_unrepaired_undefined`; Props/C04AssocN.lean:
+  associative `+ * & | ^` chains of any length (`assoc_add_correct`, …);
 * Props/C04Iterate.lean: `iterate_unroll_equiv`.
 
 * Props/C04Stmt.lean: `stmt_lowering_correct` — the control statements (if /
